@@ -251,7 +251,8 @@ def run_schedule(programs, schedule, compression=None, default="stay", lines=Fal
             sess._start_time = None
             compression = None
         if compression:
-            d = C.Deflate(15, 15, False, compression == "no_takeover")
+            # ("server_no_takeover": the server asked for a fresh inflate context per message; the client's side keeps its own)
+            d = C.Deflate(15, 15, compression == "server_no_takeover", compression == "no_takeover")
             if isinstance(getattr(d, "lock", None), REAL_LOCK_TYPES):
                 d.lock = CoopLock(sched, "zlock")
             base_set(st, "compression", d)
@@ -293,6 +294,10 @@ def run_schedule(programs, schedule, compression=None, default="stay", lines=Fal
                         elif c[0] == "server_close":
                             for _ev in ws.feed(ref6455.encode_frame(8, ref6455.close_payload(c[1], c[2]))):
                                 pass
+                        elif c[0] == "server_msg":
+                            # the event-loop thread receives a (compressed) data message while other threads send
+                            for _ev in ws.feed(c[2]):
+                                pass
                         elif c[0] == "disconnect":
                             ws.on_disconnect()
                         results[tid].append(0)
@@ -316,7 +321,7 @@ def run_schedule(programs, schedule, compression=None, default="stay", lines=Fal
                 sched.finish()
 
         # the stream must already be past the HTTP header for server_close; feed a response first (no points: not registered)
-        if any(c[0] == "server_close" for p in programs for c in p):
+        if any(c[0] in ("server_close", "server_msg") for p in programs for c in p):
             st.stream._parsed_response = True
             st.stream.frame_parser.parse_headers = False
             st.stream.frame_parser.reset()
